@@ -17,6 +17,8 @@ CHECKS = {
          "Lean 4 proof (parse pipeline model, postcondition, idempotence lemmas) + differential correspondence + metamorphic re-validation", "5/C03"),
  "C11": ("Lean theorems: the result of drop_invalid_rows is the parsed frame at the kept positions in original order; a row is kept iff no collected error names it; the rows named by a field's errors are exactly the rows violating nullability / uniqueness-as-reported / a check (every check that evaluates). Differential: surviving positions vs the Lean row-level spec on the parsed frame, survivor values vs the parse model, non-row violations must raise; pandas and polars",
          "Lean 4 proof (row exactness of the error report and of dropRows) + differential correspondence", "5/C11"),
+ "C05": ("Lean: Effects IR with a verified analyser (restores_sound: accepted skeletons restore every tracked location on every path, any callback raising); history theorem by induction over operation lists; per-run obligations restores(skeleton)=true for the mutate-then-revert functions translated from the source (run_schema_component_checks, validate_column, config_context, polars validate). Differential: random operation histories on real schemas with a structural fingerprint of the object graph after every operation and verdict stability on probe frames",
+         "Lean 4 proof (verified save/restore analyser + history induction) + translator (Effects skeletons) + differential fingerprints", "5/C05"),
 }
 NA = {}
 for i in range(1, 21):
